@@ -1,6 +1,7 @@
 pub mod iso4217;
 pub mod m1;
 pub mod m2;
+pub mod m3;
 pub mod families;
 pub mod mutate;
 pub mod corpus;
